@@ -46,6 +46,7 @@ type Reg struct {
 	PanicMod  uint64 `json:"panic_mod,omitempty"` // panics when id%PanicMod==PanicRem (Mod<=1: always)
 	PanicRem  uint64 `json:"panic_rem,omitempty"`
 	CancelAt  int    `json:"cancel_at,omitempty"` // cancels the publish context on its k-th invocation (1-based), 0 never
+	Replay    bool   `json:"replay,omitempty"`    // registered through SubscribeWithReplay (needs Cfg.Store; plain handler)
 }
 
 // Op is one operation of a program.
@@ -57,7 +58,7 @@ type Op struct {
 	Ctx          bool `json:"ctx,omitempty"`   // Unsub: class is a context-handler class
 	UseCtx       bool `json:"use_ctx,omitempty"`
 	PreCancelled bool `json:"pre_cancelled,omitempty"`
-	Inherit      bool `json:"inherit,omitempty"` // nested publish derives its context from the handler's
+	Inherit      bool `json:"inherit,omitempty"`  // nested publish derives its context from the handler's
 	Deadline     bool `json:"deadline,omitempty"` // the context ends with DeadlineExceeded instead of Canceled
 }
 
@@ -131,6 +132,10 @@ type mreg struct {
 	zombie bool // fired in a publish that has not returned yet
 }
 
+// isReplay: registered through SubscribeWithReplay — the bus wraps the handler, so it cannot be
+// addressed by Unsubscribe.
+func (r *mreg) isReplay(e *Engine) bool { return r.spec.Replay && e.P.Cfg.Store && !r.spec.Ctx }
+
 type frame struct {
 	typ       int
 	eid       uint64
@@ -160,9 +165,9 @@ type pubInfo struct {
 
 // Engine executes one program.
 type Engine struct {
-	Drivers []evt.Driver
-	P       *Program
-	Bus     *ebu.EventBus
+	Drivers  []evt.Driver
+	P        *Program
+	Bus      *ebu.EventBus
 	MaxDepth int
 
 	model  map[int][]*mreg
@@ -172,31 +177,46 @@ type Engine struct {
 	depth  int
 	failed bool
 
-	mu        sync.Mutex
-	clock     uint64
-	Trace     []TEv
-	tokens    uint64
-	asyncGot  map[[2]uint64]int // (reg, eid) -> count
-	asyncWant map[[2]uint64][2]int
+	mu         sync.Mutex
+	clock      uint64
+	Trace      []TEv
+	tokens     uint64
+	asyncGot   map[[2]uint64]int // (reg, eid) -> count
+	asyncWant  map[[2]uint64][2]int
 	asyncPanic map[[2]uint64]int
-	pubs      map[uint64]*pubInfo
-	captured  []capturedCtx
-	cancels   []context.CancelFunc
-	ObsImpl   ebu.Observability // overrides the recording Observability when Cfg.Obs is set
-	execLog   map[string]int
-	appendN   int
-	Store     *ebu.MemoryStore
+	pubs       map[uint64]*pubInfo
+	captured   []capturedCtx
+	cancels    []context.CancelFunc
+	persisted  []persistedEv
+	replay     *replayFrame
+	ObsImpl    ebu.Observability // overrides the recording Observability when Cfg.Obs is set
+	execLog    map[string]int
+	appendN    int
+	Store      *ebu.MemoryStore
 
 	Viol func(sig, desc string)
 
 	// statistics for evidence
 	Stats struct {
 		SyncInv, AsyncInv, Reentrant, ReentrantMut, Queries, Pubs, NestedPubs, Panics, Cancels int
-		ShardShare                                                                              bool
-		MaxDepth                                                                                int
-		Zombies                                                                                 int
-		SkippedUnsub                                                                            int
+		ReplaySubs, ReplayDeliveries                                                           int
+		ShardShare                                                                             bool
+		MaxDepth                                                                               int
+		Zombies                                                                                int
+		SkippedUnsub                                                                           int
 	}
+}
+
+type persistedEv struct {
+	eid uint64
+	typ int
+}
+
+// replayFrame: deliveries expected from the replay phase of a running SubscribeWithReplay.
+type replayFrame struct {
+	reg  *mreg
+	want []uint64
+	pos  int
 }
 
 type capturedCtx struct {
@@ -282,7 +302,7 @@ func NewWith(drivers []evt.Driver, p *Program, viol func(sig, desc string), obsF
 	storeOpt := func() {
 		if c.Store {
 			e.Store = ebu.NewMemoryStore()
-			opts = append(opts, ebu.WithStore(&failStore{e: e, inner: e.Store}))
+			opts = append(opts, ebu.WithStore(&failStore{e: e, inner: e.Store}), ebu.WithSubscriptionStore(e.Store))
 		}
 	}
 	if c.StoreFirst {
@@ -485,7 +505,27 @@ func (e *Engine) doSub(op *Op) {
 	e.regs = append(e.regs, r)
 	d := e.drv(op.T)
 	o := evt.SubOpts{Once: spec.Once, Async: spec.Async, Seq: spec.Seq, Filter: filterFn(spec.Filter)}
-	err := d.Subscribe(e.Bus, spec.Class, spec.Ctx, o, func(ctx context.Context, id uint64, ok bool) { e.invoke(r, ctx, id, ok) })
+	cb := func(ctx context.Context, id uint64, ok bool) { e.invoke(r, ctx, id, ok) }
+	var err error
+	if spec.Replay && e.P.Cfg.Store && !spec.Ctx {
+		// replay phase: every persisted event of this type, in log order, straight to the handler
+		rf := &replayFrame{reg: r}
+		for _, pe := range e.persisted {
+			if pe.typ == op.T {
+				rf.want = append(rf.want, pe.eid)
+			}
+		}
+		e.replay = rf
+		e.Stats.ReplaySubs++
+		err = d.SubscribeReplay(e.Bus, context.Background(), fmt.Sprintf("sub-%d", r.id), o, cb)
+		e.replay = nil
+		if err == nil && rf.pos != len(rf.want) {
+			e.fail("registry:replay-missing", "SubscribeWithReplay delivered %d of the %d persisted events of its type", rf.pos, len(rf.want))
+			return
+		}
+	} else {
+		err = d.Subscribe(e.Bus, spec.Class, spec.Ctx, o, cb)
+	}
 	if err != nil {
 		e.fail("registry:subscribe-error", "Subscribe returned %v", err)
 		return
@@ -498,7 +538,7 @@ func (e *Engine) doUnsub(op *Op) {
 	// zombie looseness: the statement does not say whether a fired once handler still counts
 	// before its publish returns, so an Unsubscribe that could hit one is not issued
 	for _, r := range e.model[op.T] {
-		if r.zombie && r.spec.Class == op.Class && r.spec.Ctx == op.Ctx {
+		if r.zombie && r.spec.Class == op.Class && r.spec.Ctx == op.Ctx && !r.isReplay(e) {
 			e.Stats.SkippedUnsub++
 			return
 		}
@@ -506,7 +546,7 @@ func (e *Engine) doUnsub(op *Op) {
 	err := e.drv(op.T).Unsubscribe(e.Bus, op.Class, op.Ctx)
 	idx := -1
 	for i, r := range e.model[op.T] {
-		if r.spec.Class == op.Class && r.spec.Ctx == op.Ctx {
+		if r.spec.Class == op.Class && r.spec.Ctx == op.Ctx && !r.isReplay(e) {
 			idx = i
 			break
 		}
@@ -675,6 +715,14 @@ func (e *Engine) advance(f *frame, until *mreg) bool {
 
 // invoke is called by every subscribed handler.
 func (e *Engine) invoke(r *mreg, ctx context.Context, id uint64, payloadOK bool) {
+	if rf := e.replay; rf != nil && rf.reg == r {
+		e.Stats.ReplayDeliveries++
+		if rf.pos >= len(rf.want) || rf.want[rf.pos] != id || !payloadOK {
+			e.fail("registry:replay-wrong-event", "replay phase of SubscribeWithReplay delivered event %d (payload ok=%v) at position %d, persisted events of the type are %v", id, payloadOK, rf.pos, rf.want)
+		}
+		rf.pos++
+		return
+	}
 	if r.spec.Async {
 		e.invokeAsync(r, ctx, id, payloadOK)
 		return
@@ -839,7 +887,6 @@ func (e *Engine) finalRegistry() {
 	}
 }
 
-
 // ---------------------------------------------------------------------------------------------
 // store wrapper and observability recorder
 
@@ -869,7 +916,11 @@ func (s *failStore) Append(ctx context.Context, ev *ebu.Event) (ebu.Offset, erro
 	if fail {
 		return "", fmt.Errorf("verif: injected append failure #%d", n)
 	}
-	return s.inner.Append(ctx, ev)
+	off, err := s.inner.Append(ctx, ev)
+	if err == nil && len(e.frames) > 0 {
+		e.persisted = append(e.persisted, persistedEv{eid: eid, typ: e.frames[len(e.frames)-1].typ})
+	}
+	return off, err
 }
 
 func (s *failStore) Read(ctx context.Context, from ebu.Offset, limit int) ([]*ebu.StoredEvent, ebu.Offset, error) {
